@@ -96,6 +96,10 @@ HANDWRITTEN = [
     {"faults": {"0": {"2": ["sleep", 40.0]}}, "calls": [{"call": "reset_async"}, {"call": "reset_wait"}, {"call": "step_async"}, {"call": "step_wait", "to": "finite"}, {"call": "close", "to": "terminate"}]},
     {"faults": {"1": {"1": ["sleep", 40.0]}}, "calls": [{"call": "reset_async"}, {"call": "reset_wait", "to": "finite"}, {"call": "close", "to": "terminate"}]},
     {"faults": {"1": {"2": ["sleep", 40.0]}}, "calls": [{"call": "reset_async"}, {"call": "reset_wait"}, {"call": "call_async"}, {"call": "call_wait", "to": "finite"}, {"call": "close", "to": "terminate"}]},
+    # an exception with a very long message (the worker's report exceeds a pipe buffer): raised like any other, then close
+    {"faults": {"0": {"2": ["raise", "ValueError", "big"]}}, "calls": [{"call": "reset_async"}, {"call": "reset_wait"}, {"call": "step_async"}, {"call": "step_wait"}, {"call": "close"}]},
+    {"faults": {"1": {"1": ["raise", "KeyError", "big"]}, "0": {"1": ["raise", "KeyError", "big"]}}, "calls": [{"call": "reset_async"}, {"call": "reset_wait"}, {"call": "close"}]},
+    {"faults": {"1": {"2": ["raise", "RuntimeError", "big"]}}, "calls": [{"call": "reset_async"}, {"call": "reset_wait"}, {"call": "set_attr"}, {"call": "close"}]},
     # killed worker: mid-step, idle; then close
     {"faults": {"1": {"2": ["kill", ""]}}, "calls": [{"call": "reset_async"}, {"call": "reset_wait"}, {"call": "step_async"}, {"call": "step_wait"}, {"call": "close"}]},
     {"calls": [{"call": "reset_async"}, {"call": "reset_wait"}, {"call": "settle"}, {"call": "kill", "w": 0}, {"call": "step_async"}, {"call": "close"}]},
